@@ -143,7 +143,12 @@ def check(case):
 
     I_ab = integ(a, b)
     ref, ref_abs = reference_integral(f, a, b, z)
-    tol = 1e-9 * (ref_abs + 1e-9) + 1e-9
+    # an interpolating cubic through unevenly spaced knots can swing to 1e5
+    # between them; its B-spline coefficients are that large and every
+    # integral carries their rounding, wherever the limits lie
+    swing = float(np.abs(np.asarray(guarded(
+        f, np.linspace(lo, hi, 2001)), dtype=float)).max())
+    tol = 1e-9 * (ref_abs + 1e-9) + 1e-9 + 1e-13 * swing * (hi - lo)
     if abs(I_ab - ref) > tol:
         raise Violation(
             'integral-not-area:' + _where(a, b, lo, hi),
@@ -154,7 +159,8 @@ def check(case):
                         'I(a,b)={!r} I(b,a)={!r}'.format(I_ab, I_ba))
     I_bc, I_ac = integ(b, c), integ(a, c)
     _, abs_bc = reference_integral(f, b, c, z)
-    tol3 = 1e-9 * (ref_abs + abs_bc + 1e-9) + 1e-9
+    tol3 = (1e-9 * (ref_abs + abs_bc + 1e-9) + 1e-9
+            + 1e-13 * swing * (hi - lo))
     if abs(I_ab + I_bc - I_ac) > tol3:
         raise Violation(
             'integral-not-additive',
